@@ -201,14 +201,17 @@ def build(name, verbose=False):
         _built[name] = exe
         return exe
 
-def prune_builds(name, keep=2):
-    """keep at most `keep` old build dirs per configuration (disk is limited)"""
+def prune_builds(name, keep=3, min_age_s=3 * 3600):
+    """keep at most `keep` old build dirs per configuration (disk is limited); never remove one that was used recently,
+    another check may be running from it"""
     if not os.path.isdir(BUILD):
         return
     ds = [os.path.join(BUILD, x) for x in os.listdir(BUILD) if x.rsplit("-", 1)[0] == name]
     ds.sort(key=lambda p: os.path.getmtime(p), reverse=True)
+    now = time.time()
     for p in ds[keep - 1:]:
-        shutil.rmtree(p, ignore_errors=True)
+        if now - os.path.getmtime(p) > min_age_s:
+            shutil.rmtree(p, ignore_errors=True)
 
 def build_many(names):
     # builds are internally parallel; run them one after another
@@ -291,6 +294,7 @@ class StageResult:
         self.info = None
         self.harness_failures = []
         self.hangs = []
+        self.aborted = False
 
 def run_range(exe, margs, lo, hi, env, res, lock, timeout, label, prefix=()):
     """run cases lo..hi in one or more worker processes, restarting after a death"""
@@ -303,8 +307,16 @@ def run_range(exe, margs, lo, hi, env, res, lock, timeout, label, prefix=()):
         open_ev = None
         last = [time.time()]
         killed = [False]
+        stopped = [False]
         def watchdog():
             while p.poll() is None:
+                if res.aborted:
+                    stopped[0] = True
+                    try:
+                        p.kill()
+                    except OSError:
+                        pass
+                    return
                 if time.time() - last[0] > timeout:
                     killed[0] = True
                     try:
@@ -353,6 +365,8 @@ def run_range(exe, margs, lo, hi, env, res, lock, timeout, label, prefix=()):
             pass
         with lock:
             res.events.extend(local)
+        if stopped[0]:
+            return
         if rc == 0 and not killed[0]:
             if open_ev is not None:
                 with lock:
@@ -373,7 +387,11 @@ def run_range(exe, margs, lo, hi, env, res, lock, timeout, label, prefix=()):
         if killed[0]:
             with lock:
                 res.hangs.append((open_ev, cmd))
+                if len(res.hangs) >= 2:
+                    res.aborted = True   # cases keep hanging: stop the stage, the verdict comes from re-running them alone
             open_ev.worker_err = "watchdog"
+            if res.aborted:
+                return
         else:
             kind = classify_death(rc, err)
             open_ev.fails.append((open_ev.keyprefix + "|" + kind, "worker died: %s :: %s" % (kind, err.strip()[-1200:].replace("\n", " / "))))
@@ -399,6 +417,9 @@ def run_stage(cfgname, margs, ncases, seed, timeout=120, nworkers=None, extra_en
         q.put((lo, min(first + ncases, lo + chunk)))
     def worker():
         while True:
+            # a stage in which cases keep hanging is stopped: the verdict comes from the re-runs below
+            if res.aborted:
+                return
             try:
                 lo, hi = q.get_nowait()
             except queue.Empty:
@@ -407,17 +428,23 @@ def run_stage(cfgname, margs, ncases, seed, timeout=120, nworkers=None, extra_en
     ths = [threading.Thread(target=worker) for _ in range(min(nworkers, q.qsize()))]
     [t.start() for t in ths]
     [t.join() for t in ths]
-    # re-run hangs once, alone, with a generous timeout; a second timeout is a hang verdict
-    for ev, cmd in res.hangs:
+    # re-run (at most 3) hangs once, alone, with a generous timeout; a second timeout is a hang verdict
+    hung = list(res.hangs[:2])
+    was_aborted = res.aborted
+    res.aborted = False
+    for ev, cmd in hung:
         r2 = StageResult()
-        run_range(exe, margs, ev.idx, ev.idx + 1, env, r2, threading.Lock(), timeout * 4, cfgname + ":rerun", prefix)
+        run_range(exe, margs, ev.idx, ev.idx + 1, env, r2, threading.Lock(), timeout * 2, cfgname + ":rerun", prefix)
         if r2.hangs:
-            ev.fails.append((ev.keyprefix + "|hang", "case did not finish within %ds, twice (alone the second time)" % (timeout * 4)))
+            ev.fails.append((ev.keyprefix + "|hang", "case did not finish within %ds, and not within %ds when re-run alone" % (timeout, timeout * 2)))
             ev.done = True
             res.events.append(ev)
         else:
             res.events.extend(r2.events)
             res.harness_failures.extend(r2.harness_failures)
+    res.aborted = was_aborted
+    if res.aborted and not any(k.endswith("|hang") for e in res.events for k, _ in e.fails):
+        res.harness_failures.append("%s: stage stopped after repeated watchdog timeouts that did not reproduce alone (inconclusive)" % cfgname)
     res.hangs = []
     return res
 
@@ -502,7 +529,7 @@ def check(pid, tier, seed):
             res = st["runner"](st, tier, seed, n)
         else:
             prefix = VALGRIND if st.get("valgrind") else ()
-            res = run_stage(st["cfg"], margs, n, seed, timeout=st.get("timeout", 180), extra_env=st.get("env"), nworkers=st.get("workers"), prefix=prefix)
+            res = run_stage(st["cfg"], margs, n, seed, timeout=st.get("timeout", 45 if tier == "quick" else 150), extra_env=st.get("env"), nworkers=st.get("workers"), prefix=prefix)
         st = dict(st)
         st["args"] = margs
         builds.append(st["cfg"])
@@ -533,6 +560,9 @@ def check(pid, tier, seed):
             ev = res.events[0]
             samples.append({"build": st["cfg"], "case": ev.idx, "op": ev.keyprefix, "input": ev.desc})
         harness_fail.extend(res.harness_failures)
+        if any(k.endswith("|hang") for k in violations):
+            stage_summ.append({"build": st["cfg"], "monitor": st["monitor"], "cases": len(res.events), "note": "confirmed hang: remaining stages skipped", "wall_s": round(time.time() - ts, 1)})
+            break
         post = st.get("post")
         if post:
             post(st, res, violations, known, known_hit, pid, seed, tags, classes)
